@@ -45,6 +45,10 @@ type C16 struct {
 	CLI       *C01       `json:"cli,omitempty"`
 	NC        *NCSession `json:"nc,omitempty"`
 	SrvSeg    string     `json:"server_seg"`
+	// Reopen: the transport object was opened and closed once before (raw mode)
+	Reopen bool `json:"reopen,omitempty"`
+	// WriteAtClose: another goroutine keeps writing while (and after) the transport is closed
+	WriteAtClose bool `json:"write_at_close,omitempty"`
 }
 
 func genC16(seed uint64, run int, tier string) Scenario {
@@ -61,6 +65,8 @@ func genC16(seed uint64, run int, tier string) Scenario {
 	sc.DataSeed = r.Uint64()
 	sc.SrvSeg = pick(r, "whole", "random")
 	sc.CloseKind = pick(r, "client", "peer", "client-frozen-peer")
+	sc.Reopen = r.IntN(4) == 0
+	sc.WriteAtClose = r.IntN(3) == 0
 	around := func() int {
 		base := pick(r, 1, sc.ReadSize-1, sc.ReadSize, sc.ReadSize+1, 2*sc.ReadSize, 3*sc.ReadSize+5, between(r, 1, 4000))
 		if base < 1 {
@@ -158,8 +164,16 @@ func runC16(env *Env, s Scenario) {
 	client, server := simnet.Pipe(k, simnet.NetPlan{SegMode: "whole"}, simnet.NetPlan{SegMode: sc.SrvSeg, Seed: sc.DataSeed}, false)
 	client.Addr = &net.TCPAddr{IP: net.IPv4(127, 0, 0, 1), Port: 40001}
 	server.Addr = &net.TCPAddr{IP: net.IPv4(127, 0, 0, 1), Port: 22}
-	simhook.DialFn = func(network, a string) net.Conn { return client }
-	env.Res.Shape = fmt.Sprintf("%s rs=%d to=%v from=%v close=%s seg=%s", sc.Class, sc.ReadSize, sc.ToServer, sc.FromSrv, sc.CloseKind, sc.SrvSeg)
+	conns := []net.Conn{client}
+	simhook.DialFn = func(network, a string) net.Conn {
+		c := conns[0]
+		if len(conns) > 1 {
+			conns = conns[1:]
+		}
+
+		return c
+	}
+	env.Res.Shape = fmt.Sprintf("%s rs=%d to=%v from=%v close=%s seg=%s reopen=%v", sc.Class, sc.ReadSize, sc.ToServer, sc.FromSrv, sc.CloseKind, sc.SrvSeg, sc.Reopen && sc.Mode == "raw")
 	env.Res.SchedDigest = fmt.Sprintf("%016x", kernel.HashString(env.Res.Shape))
 	env.Res.Nontrivial = true
 	var mu sync.Mutex
@@ -224,9 +238,31 @@ func runC16(env *Env, s Scenario) {
 			return
 		}
 		var got []byte
-		var openErr, writeErr, lastReadErr error
+		var openErr, writeErr, lastReadErr, lateWriteErr error
+		lateWrites := false
 		var unblockedAfter time.Duration = -1
+		if sc.Reopen {
+			// an earlier connection through the same transport object, to a peer that says nothing
+			c1, s1 := simnet.Pipe(k, simnet.NetPlan{SegMode: "whole"}, simnet.NetPlan{SegMode: "whole"}, false)
+			c1.Addr, s1.Addr = client.Addr, server.Addr
+			conns = []net.Conn{c1, client}
+			if sc.Transport != "telnet" {
+				srv1 := &peer.SSHServer{HostKey: srv.HostKey, Users: map[string]string{"u": "p"}, AuthKeys: map[string]ssh.PublicKey{}, Done: make(chan struct{})}
+				srv1.Raw = func(ch ssh.Channel) { _, _ = io.Copy(io.Discard, ch); _ = ch.Close(); _ = s1.Close() }
+				go srv1.Serve(s1)
+			}
+			env.AtEnd = append(env.AtEnd, func() { _ = c1.Close(); _ = s1.Close() })
+		}
 		done := env.Go("user", func() {
+			if sc.Reopen {
+				var e1 error
+				if !env.Call("Open#1", func() { e1 = tr.Open() }) || e1 != nil {
+					openErr = fmt.Errorf("first open: %v", e1)
+
+					return
+				}
+				env.Call("Close#1", func() { _ = tr.Close(false) })
+			}
 			if !env.Call("Open", func() { openErr = tr.Open() }) || openErr != nil {
 				return
 			}
@@ -263,6 +299,23 @@ func runC16(env *Env, s Scenario) {
 			}()
 			time.Sleep(20 * time.Millisecond)
 			t0 = k.Now()
+			var w2done chan struct{}
+			if sc.WriteAtClose && sc.CloseKind == "client" {
+				// a caller still writing when the transport is closed gets an error, not a crash
+				w2done = make(chan struct{})
+				go func() {
+					defer close(w2done)
+					for i := 0; i < 400; i++ {
+						if err := tr.Write([]byte{'z'}); err != nil {
+							lateWriteErr = err
+
+							return
+						}
+						time.Sleep(500 * time.Microsecond)
+					}
+				}()
+				time.Sleep(3 * time.Millisecond)
+			}
 			switch sc.CloseKind {
 			case "client":
 				go func() { _ = tr.Close(true) }()
@@ -280,6 +333,10 @@ func runC16(env *Env, s Scenario) {
 			}
 			if sc.CloseKind == "peer" {
 				_ = tr.Close(true)
+			}
+			if w2done != nil {
+				<-w2done
+				lateWrites = true
 			}
 		})
 		out := k.Run(done, 120*time.Second, 10*time.Millisecond)
@@ -307,6 +364,16 @@ func runC16(env *Env, s Scenario) {
 				i++
 			}
 			env.Fail("bytes-from-peer-altered", sc.Transport, "Read returned %d bytes, the peer sent %d; first difference at offset %d", len(got), len(fromSrv), i)
+		}
+		if lateWrites {
+			// the late writer's bytes (any number of them) follow the payloads
+			env.Probe("writer-running-during-close")
+			for len(sg) > len(toSrv) && sg[len(sg)-1] == 'z' {
+				sg = sg[:len(sg)-1]
+			}
+			if lateWriteErr == nil {
+				env.Fail("write-after-close-reported-success", sc.Transport, "400 writes over 200ms after the transport had been closed all reported success")
+			}
 		}
 		if !bytes.Equal(sg, toSrv) {
 			i := 0
